@@ -98,7 +98,7 @@ m = {
  "setup_cmd": "./vf setup",
  "hooks": {
    "guard": "verif",
-   "enable": "go build -tags verif (all harness workers are built with the tag; no in-tree hook exists so far)",
+   "enable": "go build -tags verif (all harness workers are built with the tag). No in-tree hook exists: the -race workers are built with go build -overlay, which swaps package sync for harness/vsync (mutexes that yield or sleep at lock boundaries with probability VERIF_PERTURB) in build-time copies of the files of /repo's current working tree; /repo itself is not modified (DESIGN.md section 1.6)",
    "baseline_off_cmd": "cd /repo && GOFLAGS=-mod=mod GOPROXY=off GOSUMDB=off go test -json -vet=off -count=1 -timeout 25m ./...",
    "source_commits": [],
    "add_only": True,
